@@ -8,7 +8,9 @@ Fail-closed Python-`ast` analysis: a function body is abstracted to a list of
   IInplace v                   trailing-underscore method / function on v, `v += ..`, `v[..] = ..`, `out=v`
 and anything outside the vocabulary (global / nonlocal, exec, star-assignment to attributes of parameters,
 `setattr`, ...) aborts the translation of that function (it is then listed as refused and covered only by
-the runtime sweep).  Model/Heap.v gives the skeletons their meaning; Props/C15.v proves no_arg_mutation
+the runtime sweep).  One path-sensitive idiom is understood: after `x = y.type_as(..)` (SAME_OR_COPY_METHODS: the receiver itself
+or a complete fresh copy) the branch of `if x.data_ptr() == y.data_ptr()` on which the pointers differ starts with
+`IAssign true x []` (x is the fresh copy there).  Model/Heap.v gives the skeletons their meaning; Props/C15.v proves no_arg_mutation
 for every translated function over all branch vectors.
 """
 import ast
@@ -35,6 +37,9 @@ FRESH_METHODS = {"clone", "new_tensor", "new_zeros", "new_ones", "new_empty", "n
                  "remainder", "atan2", "acos", "asin", "atan", "cross", "outer", "trace", "addmm", "lerp", "erf", "logsumexp",
                  "unique", "bincount", "histc", "median", "isnan", "isinf", "isfinite", "nan_to_num", "fill_diagonal", "tril", "triu",
                  "sub_", "from_grid", "from_arg", "from_align_corners"}
+# methods that return the receiver ITSELF or a complete fresh copy (never a partial view): after `x = y.type_as(z)` the test
+# `x.data_ptr() == y.data_ptr()` decides which of the two it was, so x is fresh storage on the branch where the pointers differ
+SAME_OR_COPY_METHODS = {"type_as", "type", "to", "float", "double", "half", "int", "long", "contiguous"}
 BITS = 4
 FRESH_ATTRS = {"shape", "dtype", "device", "ndim", "is_cuda", "requires_grad", "layout", "names", "is_sparse", "is_quantized",
                "is_floating_point", "itemsize", "nbytes", "value", "name"}
@@ -81,6 +86,10 @@ class Analyzer:
         self.pure_fns = set()
         self.nested_stack = []
         self.ret_stack = []
+        self.ver = {}            # name -> number of (textual) rebindings seen so far
+        self.blk = [0]           # stack of ids of the enclosing conditional / loop bodies
+        self.blk_next = 1
+        self.same_or_copy = {}   # x -> (y, ver[x], ver[y], block stack) after `x = y.<SAME_OR_COPY_METHODS>(..)`
         a = fn.args
         params = [x.arg for x in a.posonlyargs + a.args] + ([a.vararg.arg] if a.vararg else []) + [x.arg for x in a.kwonlyargs] \
             + ([a.kwarg.arg] if a.kwarg else [])
@@ -366,6 +375,8 @@ class Analyzer:
     def assign_target(self, t, src, weak):
         if isinstance(t, ast.Name):
             v = self.var(t.id)
+            self.ver[t.id] = self.ver.get(t.id, 0) + 1
+            self.same_or_copy.pop(t.id, None)
             strong = (self.depth == 0) and not weak
             self.code.append(("assign", strong, v, [(self.var(n), c) for n, c in src]))
         elif isinstance(t, (ast.Tuple, ast.List)):
@@ -388,13 +399,36 @@ class Analyzer:
         else:
             raise Refuse(f"assignment target {type(t).__name__}")
 
-    def block(self, stmts, nested=True):
+    def block(self, stmts, nested=True, scope=False):
         if nested:
             self.depth += 1
+        if scope:
+            self.blk.append(self.blk_next)
+            self.blk_next += 1
         for s in stmts:
             self.stmt(s)
+        if scope:
+            self.blk.pop()
         if nested:
             self.depth -= 1
+
+    def ptr_test(self, test):
+        """`x.data_ptr() == y.data_ptr()` (or !=) where x was bound by `x = y.type_as(..)` (a SAME_OR_COPY method) on every path
+        reaching the test and neither name was rebound since: returns (x, True if the pointers DIFFER on the else branch)"""
+        if not (isinstance(test, ast.Compare) and len(test.ops) == 1 and isinstance(test.ops[0], (ast.Eq, ast.NotEq))):
+            return None
+        names = []
+        for c in (test.left, test.comparators[0]):
+            if not (isinstance(c, ast.Call) and not c.args and not c.keywords and isinstance(c.func, ast.Attribute)
+                    and c.func.attr == "data_ptr" and isinstance(c.func.value, ast.Name)):
+                return None
+            names.append(c.func.value.id)
+        for x, y in (names, names[::-1]):
+            rec = self.same_or_copy.get(x)
+            if rec and rec[0] == y and rec[1] == self.ver.get(x, 0) and rec[2] == self.ver.get(y, 0) \
+                    and tuple(self.blk[:len(rec[3])]) == rec[3]:
+                return x, isinstance(test.ops[0], ast.Eq)
+        return None
 
     def const_flag(self, test):
         """`if inplace:` / `if not inplace:` on an explicit in-place flag parameter (analysed for flag = False)"""
@@ -415,6 +449,13 @@ class Analyzer:
             src = self.sources(s.value)
             for t in s.targets:
                 self.assign_target(t, src, weak=False)
+            v = s.value
+            if len(s.targets) == 1 and isinstance(s.targets[0], ast.Name) and isinstance(v, ast.Call) \
+                    and isinstance(v.func, ast.Attribute) and v.func.attr in SAME_OR_COPY_METHODS \
+                    and isinstance(v.func.value, ast.Name) and v.func.value.id in self.vars \
+                    and v.func.value.id != s.targets[0].id and not self.nested_stack:
+                x, y = s.targets[0].id, v.func.value.id
+                self.same_or_copy[x] = (y, self.ver.get(x, 0), self.ver.get(y, 0), tuple(self.blk))
         elif isinstance(s, ast.AnnAssign):
             if s.value is not None:
                 self.assign_target(s.target, self.sources(s.value), weak=False)
@@ -432,12 +473,17 @@ class Analyzer:
                 # explicit in-place flag: the branch taken for inplace=False
                 self.block(s.orelse if fl[0] else s.body, nested=False)
                 return
+            pt = self.ptr_test(s.test)
             self.sources(s.test)
             outer = self.code
             self.code = []
-            self.block(s.body, nested=False)
+            if pt is not None and not pt[1]:
+                self.code.append(("assign", True, self.var(pt[0]), []))      # pointers differ: x is the fresh copy
+            self.block(s.body, nested=False, scope=True)
             a, self.code = self.code, []
-            self.block(s.orelse, nested=False)
+            if pt is not None and pt[1]:
+                self.code.append(("assign", True, self.var(pt[0]), []))
+            self.block(s.orelse, nested=False, scope=True)
             b, self.code = self.code, outer
             self.code.append(("if", a, b))
         elif isinstance(s, (ast.For, ast.AsyncFor)):
@@ -445,18 +491,18 @@ class Analyzer:
             outer = self.code
             self.code = []
             self.assign_target(s.target, [(n, False) for n, _ in src], weak=False)
-            self.block(s.body, nested=False)
+            self.block(s.body, nested=False, scope=True)
             body, self.code = self.code, outer
             self.code.append(("loop", body))
-            self.block(s.orelse, nested=False)
+            self.block(s.orelse, nested=False, scope=True)
         elif isinstance(s, ast.While):
             outer = self.code
             self.code = []
             self.sources(s.test)
-            self.block(s.body, nested=False)
+            self.block(s.body, nested=False, scope=True)
             body, self.code = self.code, outer
             self.code.append(("loop", body))
-            self.block(s.orelse, nested=False)
+            self.block(s.orelse, nested=False, scope=True)
         elif isinstance(s, (ast.With, ast.AsyncWith)):
             for it in s.items:
                 src = self.sources(it.context_expr)
@@ -464,13 +510,13 @@ class Analyzer:
                     self.assign_target(it.optional_vars, src, weak=True)
             self.block(s.body, nested=False)
         elif isinstance(s, ast.Try):
-            self.block(s.body)
+            self.block(s.body, scope=True)
             for h in s.handlers:
                 if h.name:
                     self.var(h.name)
-                self.block(h.body)
-            self.block(s.orelse)
-            self.block(s.finalbody)
+                self.block(h.body, scope=True)
+            self.block(s.orelse, scope=True)
+            self.block(s.finalbody, scope=True)
         elif isinstance(s, (ast.Raise, ast.Assert)):
             for c in ast.iter_child_nodes(s):
                 if isinstance(c, ast.expr):
